@@ -14,6 +14,7 @@ type GenOpts struct {
 	NoRepOpt  bool  // never put zigzag / fixed on a repeated field
 	StringKey bool  // maps are map<string, V> only
 	BigNums   []int // extra numbers offered above 65535 (default 65536, 70000, 1<<29-1)
+	Impl      bool  // also generate message slots of the self-encoding types PMsg / CMsg
 	MidNums   []int // extra "interesting" numbers offered (on top of the 15/16, 2047/2048, 65535 boundaries)
 }
 
@@ -22,6 +23,7 @@ type GenOpts struct {
 type GenStats struct {
 	CappedNums int // field numbers redrawn because they exceeded NumCap
 	RepOpt     int // zigzag/fixed options dropped from repeated fields
+	ImplSlots  int // message slots typed PMsg / CMsg
 }
 
 var scalarKinds = []Kind{KBool, KInt, KInt32, KInt64, KUint, KUint32, KUint64, KFloat32, KFloat64, KString, KBytes}
@@ -97,6 +99,13 @@ func GenSchema(t *rapid.T, opts GenOpts) (Schema, GenStats) {
 	var st GenStats
 	nm := rapid.IntRange(1, o.MaxMsgs).Draw(t, "nmsgs")
 	s := Schema{Msgs: make([]Message, nm)}
+	// self-encoding types: their schema (ImplMessage) is appended as an extra
+	// last message that only Impl slots refer to
+	implIdx := -1
+	if o.Impl && rapid.IntRange(0, 2).Draw(t, "withimpl") != 0 {
+		implIdx = nm
+		s.Msgs = append(s.Msgs, ImplMessage())
+	}
 	for mi := nm - 1; mi >= 0; mi-- {
 		m := &s.Msgs[mi]
 		m.Tagged = rapid.IntRange(0, 9).Draw(t, "tagged") < 6
@@ -134,8 +143,13 @@ func GenSchema(t *rapid.T, opts GenOpts) (Schema, GenStats) {
 					shape = 14
 					f.Ptr = true
 				}
-			case !canRef && shape >= 13 && shape <= 16:
+			case !canRef && implIdx < 0 && shape >= 13 && shape <= 16:
 				shape = 0
+			}
+			// a message-shaped slot is of a self-encoding type when there is no
+			// ordinary message to refer to, and otherwise a third of the time
+			useImpl := func() bool {
+				return implIdx >= 0 && (!canRef || rapid.IntRange(0, 2).Draw(t, "impl?") == 0)
 			}
 			switch {
 			case shape <= 12: // scalar, singular or repeated
@@ -143,9 +157,15 @@ func GenSchema(t *rapid.T, opts GenOpts) (Schema, GenStats) {
 				f.Rep = shape >= 9
 			case shape <= 16: // message
 				f.K = KMsg
-				f.Msg = mi + 1 // bias towards deep chains
-				if rapid.IntRange(0, 2).Draw(t, "msgskip") == 0 {
-					f.Msg = rapid.IntRange(mi+1, nm-1).Draw(t, "msgref")
+				if i != force && useImpl() {
+					f.Msg = implIdx
+					f.Impl = rapid.SampledFrom([]string{"pm", "cm"}).Draw(t, "implkind")
+					st.ImplSlots++
+				} else {
+					f.Msg = mi + 1 // bias towards deep chains
+					if rapid.IntRange(0, 2).Draw(t, "msgskip") == 0 {
+						f.Msg = rapid.IntRange(mi+1, nm-1).Draw(t, "msgref")
+					}
 				}
 				if !inl {
 					f.Ptr = rapid.Bool().Draw(t, "ptr")
@@ -158,9 +178,15 @@ func GenSchema(t *rapid.T, opts GenOpts) (Schema, GenStats) {
 				} else {
 					f.Key = rapid.SampledFrom(keyKinds).Draw(t, "key")
 				}
-				if canRef && rapid.IntRange(0, 3).Draw(t, "mapmsg") == 0 {
+				if (canRef || implIdx >= 0) && rapid.IntRange(0, 3).Draw(t, "mapmsg") == 0 {
 					f.Val = KMsg
-					f.Msg = rapid.IntRange(mi+1, nm-1).Draw(t, "msgref")
+					if useImpl() {
+						f.Msg = implIdx
+						f.Impl = rapid.SampledFrom([]string{"pm", "cm"}).Draw(t, "implkind")
+						st.ImplSlots++
+					} else {
+						f.Msg = rapid.IntRange(mi+1, nm-1).Draw(t, "msgref")
+					}
 					f.Ptr = rapid.Bool().Draw(t, "ptr")
 				} else {
 					f.Val = rapid.SampledFrom(scalarKinds).Draw(t, "val")
